@@ -331,7 +331,7 @@ VARIANTS = ["ws", "case", "comments", "lines", "messy", "tabs", "splitall", "glu
 
 # ------------------------------------------------------------------ configurations
 
-YESNO = ["yes", "no"]
+YESNO = ["yes", "no", True, False]  # an unquoted yes / no of a YAML file arrives as a boolean
 OPTION_DOMAINS = {
     "case": ["lower", "upper", "upper_or_lower"],
     "number_of_spaces": [0, 1, 2, ">=1", ">=2", "<=1", "1+", ">1"],
@@ -488,6 +488,25 @@ def named_config(name, tables, rng, text=None):
         return None, []
     if name == "exceptions":
         return exceptions_config(tables, rng, text)
+    if name == "flip_yesno_bool":
+        # every yes / no option flipped away from its default and written the way an unquoted YAML yes / no arrives:
+        # as a boolean
+        conf = {}
+        for r in tables["rules"]:
+            if r["deprecated"] or r["phase"] == 0:
+                continue
+            d = {}
+            for nm in r["configuration"]:
+                dv = r["defaults"].get(nm)
+                if dv in ("yes", True):
+                    d[nm] = False
+                elif dv in ("no", False) and nm not in ("disable", "fixable"):
+                    d[nm] = True
+            for k in ("disable", "fixable"):
+                d.pop(k, None)
+            if d:
+                conf[r["id"]] = d
+        return None, [{"rule": conf}]
     if name in ("ws001_off", "ws001_warning"):
         # trailing blanks are nobody's business in phase 1: the engine's own clean up after phase 1 is then the
         # only thing that touches them
